@@ -265,14 +265,17 @@ def run(ctx):
         meta.append(("low-limit", data, script))
         limits.append(lim)
     n_main = next((i for i, m in enumerate(meta) if m[0] == "low-limit"), len(meta))
-    outs = run_lines_robust([ctx.harness_bin("c01")], lines[:n_main], per_line_timeout=30, batch=100)
+    # address space capped at 12 GiB: an input that makes the decoder allocate without bound (outside the tracker)
+    # ends as an allocation abort = `crash` within seconds instead of exhausting the machine until the deadline
+    capped = ["/bin/sh", "-c", f"ulimit -v 12582912; exec {ctx.harness_bin('c01')}"]
+    outs = run_lines_robust(capped, lines[:n_main], per_line_timeout=30, batch=100)
     # the low-limit lines one process each (a hang costs its deadline once); give up after 3 failures
     bad_low = 0
     for ln in lines[n_main:]:
         if bad_low >= 3:
             outs.append("skip")
             continue
-        o1 = run_lines_robust([ctx.harness_bin("c01")], [ln], per_line_timeout=25, floor=25)[0] or "crash"
+        o1 = run_lines_robust(capped, [ln], per_line_timeout=25, floor=25)[0] or "crash"
         outs.append(o1)
         if o1 == "hang" or o1.startswith("crash") or "panic" in o1:
             bad_low += 1
@@ -315,7 +318,8 @@ def run(ctx):
             ctx.sample({"input": label, "bytes_hex": data.hex(), "script": script, "results": o})
     ctx.assumptions += [
         "usize = 64 bit; checked (overflow-checks, debug-assertions) build of the whole workspace",
-        "allocation limit 128 MiB as in fuzz/fuzz_targets/decode.rs; per-line deadline 30 s counts as a hang",
+        "allocation limit 128 MiB as in fuzz/fuzz_targets/decode.rs; per-line deadline 30 s counts as a hang; the harness "
+        "process runs with a 12 GiB address-space cap (ulimit -v): running into it is an abort = a violation",
         "after a panic the image object is not used again (a panic may leave locks poisoned); the panic itself is the violation",
         "VarDCT pixel paths, filters and colour conversion are reached only by corpus files and mutants, never by valid encoder-made streams",
     ]
